@@ -79,7 +79,7 @@ def run(ck):
 
     # R3a: writable arm of onReady resumes draining
     g = lib.single(prog, T + "onReady")
-    wblocks = [b for b in g.blocks.values() if b.term and b.term.get("k") == "if" and "c:Pistache::Aio::FdSet::Entry::isWritable" in (b.term.get("refs") or [])]
+    wblocks = [b for b in g.blocks.values() if b.term and b.term.get("k") in ("if", "cond") and "c:Pistache::Aio::FdSet::Entry::isWritable" in (b.term.get("refs") or [])]
     ck.require(wblocks, "isWritable test not found in Transport::onReady")
     is_drain = summ.lift_must(lambda ev: ev["k"] == "call" and (ev.get("callee") or "") == T + "asyncWriteImpl", "resume-drain")
     for b in wblocks:
